@@ -1,9 +1,12 @@
 package c07
 
 import (
+	"context"
 	"fmt"
 	"math"
 	"math/rand"
+	"os"
+	"path/filepath"
 	"sort"
 	"strings"
 	"sync"
@@ -60,9 +63,26 @@ func (cp *corpus) record() record {
 	return record{m: map[string]any{"kind": "corpus", "id": cp.ID, "typ": cp.Typ, "docs": docs}, class: "corpus"}
 }
 
+var mergedDirs []string
+
+// scratchBase: the parent check sets VERIF_C07_MERGED_BASE (a directory it removes at
+// the end) so that indexes created by children that get killed do not stay behind
+func scratchBase() string {
+	if b := os.Getenv("VERIF_C07_MERGED_BASE"); b != "" {
+		return b
+	}
+	if b := os.Getenv("VERIF_SCRATCH_BASE"); b != "" {
+		return b
+	}
+	return ""
+}
+
 func docID(i int) string { return fmt.Sprintf("d%04d", i) }
 
-var engines = []string{"scorch", "upsidedown"}
+// scorch-merged: a disk index whose first part was force-merged into one segment (zap then
+// encodes single-hit terms specially) followed by unmerged batches; its queries run with
+// score "none" (the unadorned conjunction / disjunction optimisations over term ranges)
+var engines = []string{"scorch", "upsidedown", "scorch-merged"}
 
 func openIndex(eng string, cp *corpus) (bleve.Index, error) {
 	m := bleve.NewIndexMapping()
@@ -77,14 +97,47 @@ func openIndex(eng string, cp *corpus) (bleve.Index, error) {
 		idx, err = bleve.NewUsing("", m, scorch.Name, scorch.Name, nil)
 	case "upsidedown":
 		idx, err = bleve.NewMemOnly(m) // upsidedown over gtreap
+	case "scorch-merged":
+		dir, derr := os.MkdirTemp(scratchBase(), "c07m-")
+		if derr != nil {
+			return nil, derr
+		}
+		mergedDirs = append(mergedDirs, dir)
+		idx, err = bleve.NewUsing(filepath.Join(dir, "idx"), m, scorch.Name, scorch.Name, map[string]interface{}{
+			"scorchMergePlanOptions": map[string]interface{}{"FloorSegmentSize": 1}}) // passive background planner
 	default:
 		return nil, fmt.Errorf("unknown engine %q", eng)
 	}
 	if err != nil {
 		return nil, err
 	}
+	mergeAt := -1
+	if eng == "scorch-merged" {
+		mergeAt = len(cp.Docs) * 6 / 10
+	}
 	b := idx.NewBatch()
 	for i, vals := range cp.Docs {
+		if i == mergeAt {
+			if err := idx.Batch(b); err != nil {
+				return nil, err
+			}
+			b = idx.NewBatch()
+			if adv, aerr := idx.Advanced(); aerr == nil {
+				if sc, ok := adv.(*scorch.Scorch); ok {
+					deadline := time.Now().Add(30 * time.Second)
+					for time.Now().Before(deadline) {
+						sm := sc.StatsMap()
+						if n, _ := sm["num_root_memorysegments"].(uint64); n == 0 {
+							break
+						}
+						time.Sleep(2 * time.Millisecond)
+					}
+					if err := sc.ForceMerge(context.Background(), nil); err != nil {
+						return nil, err
+					}
+				}
+			}
+		}
 		var vs []interface{}
 		for _, v := range vals {
 			if cp.Typ == "num" {
@@ -190,6 +243,9 @@ func runQuery(idx bleve.Index, cp *corpus, q querySpec) (record, error) {
 		return record{cs: cs}, fmt.Errorf("building query: %v", err)
 	}
 	req := bleve.NewSearchRequestOptions(bq, len(cp.Docs)+10, 0, false)
+	if q.Eng == "scorch-merged" {
+		req.Score = "none"
+	}
 	var res *bleve.SearchResult
 	if gerr := guarded(120*time.Second, func() { res, err = idx.Search(req) }); gerr != nil {
 		return record{cs: cs}, gerr
@@ -443,6 +499,12 @@ type blowupCase struct {
 }
 
 func buildE2E(c *core.Ctx) (*e2eRecords, error) {
+	defer func() { // registered first: runs after the indexes were closed
+		for _, d := range mergedDirs {
+			_ = os.RemoveAll(d)
+		}
+		mergedDirs = nil
+	}()
 	r := c.Rand
 	nDocs := c.Pick(90, 160)
 	corpora := []*corpus{
